@@ -120,6 +120,12 @@ func main() {
 		runHist(o, rng, thorough, *replay, "")
 	case "svc":
 		runHist(o, rng, thorough, *replay, "svc")
+	case "restart":
+		runHist(o, rng, thorough, *replay, "restart")
+	case "drain":
+		runHist(o, rng, thorough, *replay, "drain")
+	case "mal":
+		runHist(o, rng, thorough, *replay, "mal")
 	case "valid":
 		runValid(o, rng, thorough)
 	default:
